@@ -402,7 +402,8 @@ Section RefineTxn.
   (* ---------------------------------------------------------------- *)
   (* Delete *)
 
-  Definition del_rel (tr : tresult) (sr : sresult) : Prop := map snd (t_matched tr) = sr_matched sr.
+  Definition del_rel (tr : tresult) (sr : sresult) : Prop :=
+    map snd (t_matched tr) = sr_matched sr /\ t_upserted tr = None.
 
   Theorem txn_delete_refines c g h q sort skip limit :
     ns_ok (g_did g) (cat_ns c) ->
